@@ -568,6 +568,8 @@ func (fx *FuncExec) mapUpdate(ps *pathState, x *ssa.MapUpdate) {
 		return
 	}
 	fx.safe(ps, x, "mapupdate", "assignment to entry in nil map", tNot(m.Nil))
+	// rule-site assertions can be anchored at a map assignment: `assert before call mapupdate#k`
+	fx.siteAsserts(ps, fmt.Sprintf("mapupdate#%d", fx.siteOrd[x]), "before", nil)
 	mt := m.Typ.Underlying().(*types.Map)
 	k := st.toLeaf(fx.adapt(st, fx.val(st, x.Key), mt.Key()), st.keySort(mt.Key()))
 	v := fx.adapt(st, fx.val(st, x.Value), mt.Elem())
